@@ -73,9 +73,11 @@ Definition ports_spec_ok (c : ports_case) : bool :=
   && match obs_as_error (pc_err c) with
      | None => pc_mutated c || docs_equivb (env_of (pc_parse c) (pc_tr c)) (pc_src c) (pc_after c)
      | Some e =>
-         (* a rejection names the entry; an unaltered backup is only refused when the hub cannot hold that many virtual ports *)
+         (* a rejection names the entry; an unaltered backup is only refused when it has more virtual ports than the hub may hold *)
          (names_entryb (sent_entries c) e || (match as_entries (pc_sent c) with None => true | Some _ => false end))
-         && (pc_mutated c || String.eqb (e_code e) "too-many-ports")
+         && (pc_mutated c
+             || (String.eqb (e_code e) "too-many-ports"
+                 && (h_vport_limit (pc_hub c) <? Z.of_nat (List.length (filter (fun x => truthy (get "virtual" x)) (pc_src c))))))
      end.
 
 Record device_case := {
